@@ -72,6 +72,17 @@ theorem bisectMix_brackets (cdf : ℝ → ℝ) (p : ℝ) : ∀ (n : Nat) (x1 x2 
       have heq : cdf ((x1 + x2) / 2) = p := le_antisymm (not_lt.mp hgt) (not_lt.mp hlt)
       exact ⟨(x1 + x2) / 2, (x1 + x2) / 2, hm1, hr ▸ le_refl _, hr ▸ le_refl _, hm2, heq.le, heq.ge⟩
 
+/-- on ℝ the `x2 < eslINFINITY` test of the hxp / mixgev bracketing loop is always true -/
+theorem bracketRightLim_real (cdf : ℝ → ℝ) (p x1 : ℝ) : ∀ (n : Nat) (x2 : ℝ),
+    bracketRightLim cdf p x1 n x2 = bracketRight cdf p x1 n x2 := by
+  intro n
+  induction n with
+  | zero => intro x2; rfl
+  | succ n ih => intro x2; simp only [bracketRightLim, bracketRight, num_ltInf, and_true, ih]
+
+theorem invcdfRightLim_real (fuel : Nat) (cdf : ℝ → ℝ) (p mu : ℝ) : invcdfRightLim fuel cdf p mu = invcdfRight fuel cdf p mu := by
+  simp only [invcdfRightLim, invcdfRight, bracketRightLim_real]
+
 /-- the right bracketing loop ends on a point `≥` its start with `p ≤ cdf` there (start at or right of `x1`) -/
 theorem bracketRight_spec (cdf : ℝ → ℝ) (p x1 : ℝ) : ∀ (n : Nat) (x2 r : ℝ), x1 ≤ x2 →
     bracketRight cdf p x1 n x2 = some r → x2 ≤ r ∧ p ≤ cdf r := by
@@ -146,6 +157,7 @@ theorem invcdfGam_brackets {fuel : Nat} {cdf : ℝ → ℝ} {p mu l t r : ℝ} (
 theorem invcdfMix_brackets {fuel : Nat} {cdf : ℝ → ℝ} {p m r : ℝ} (h : invcdfMix fuel cdf p m = some r) :
     ∃ a b, a ≤ r ∧ r ≤ b ∧ cdf a ≤ p ∧ p ≤ cdf b := by
   unfold invcdfMix at h
+  simp only [bracketRightLim_real] at h
   split at h
   · exact absurd h (by simp)
   · rename_i x1 hb1
